@@ -68,6 +68,7 @@ type Stack struct {
 
 	mu       sync.Mutex
 	bodies   map[string]string // sha -> label of the first event that carried this body
+	nRestore int
 	intAgent map[string]string // internal agent name -> id
 	intGen   map[string]int    // internal agent name -> generation in which the id was issued
 	invMu    sync.Mutex
@@ -208,6 +209,7 @@ func (s *Stack) Init() {
 		AwsKey:                       "AKIDEXAMPLE",
 		AwsSecret:                    "secret",
 		AwsSession:                   "session",
+		CredentialsExpiry:            time.Now().Add(24 * time.Hour),
 		XRayDaemonAddress:            "0.0.0.0:0",
 		FunctionName:                 "test_function",
 		FunctionVersion:              "$LATEST",
@@ -590,6 +592,15 @@ func (s *Stack) RtRestoreError(p *Proc, who, errType string) CallResult {
 	return r
 }
 
+// restoreExpiry: the credentials of every restore expire earlier than the ones held so far (long-lived ones at
+// init, shorter ones with each restore) - they replace them all the same
+func (s *Stack) restoreExpiry() time.Time {
+	s.mu.Lock()
+	defer s.mu.Unlock()
+	s.nRestore++
+	return time.Now().Add(12*time.Hour - time.Duration(s.nRestore)*time.Hour)
+}
+
 // Creds asks the credentials endpoint (snapshot mode) with the per-instance token of the runtime's
 // environment ("ok"), a wrong token or none.
 func (s *Stack) Creds(p *Proc, idClass string) CallResult {
@@ -626,6 +637,15 @@ func (s *Stack) Route(p *Proc, who, method, path, cls string, hdr map[string]str
 	a := actorOf(p, who)
 	cid := s.Rec.Emit(a, "RouteCall", "cls", cls, "who", a, "gen", gen(p), "method", method, "path", path)
 	r := s.do(p, method, path, hdr, body)
+	if r.ErrType == "" {
+		// the stub routes answer 202 with an error document
+		var m map[string]interface{}
+		if json.Unmarshal(r.Body, &m) == nil {
+			if et, ok := m["errorType"].(string); ok {
+				r.ErrType = et
+			}
+		}
+	}
 	s.Rec.Emit(a, "RouteRet", "cid", cid, "who", a, "gen", gen(p), "method", method, "path", path, "status", r.Status, "errType", r.ErrType,
 		"net", r.NetErr, "size", len(r.Body))
 	return r
